@@ -55,4 +55,9 @@ theorem mul_by_scalar_gen (s : Int) (x : Elem) :
     SqiGen.QuatAlg.quat_alg_elem_mul_by_scalar s x.denom x.coord.x0 x.coord.x1 x.coord.x2 x.coord.x3 =
       tup (elemMulByScalar s x) := rfl
 
+theorem coord_is_zero_gen (v : Vec4) : SqiGen.QuatAlg.quat_alg_coord_is_zero v.x0 v.x1 v.x2 v.x3 = v.isZero := rfl
+
+theorem elem_is_zero_gen (x : Elem) :
+    SqiGen.QuatAlg.quat_alg_elem_is_zero x.denom x.coord.x0 x.coord.x1 x.coord.x2 x.coord.x3 = elemIsZero x := rfl
+
 end SqiProofs.QuatAlgText
